@@ -286,6 +286,14 @@ class Program:
         c = self.by_short.get(short, [])
         if module:
             c = [f for f in c if f.mod.name == module]
+        if not c and "." in short and not short.endswith(".setter"):
+            # Class.method inherited from a base class of the repo (a refactoring may move a method up the hierarchy)
+            cn, mn = short.split(".", 1)
+            cis = [x for x in self.class_by_name.get(cn, []) if not module or x.mod.name == module]
+            if len(cis) == 1 and "." not in mn:
+                m = self.method(cis[0], mn)
+                if m is not None:
+                    return m
         if not c:
             raise AnalysisError(f"anchor vanished: function {module + '.' if module else ''}{short}")
         if len(c) > 1:
